@@ -4,7 +4,7 @@ use crate::abnf::Prod;
 use crate::ctx::{show, Case, Ctx};
 use crate::{fam, gen};
 
-pub const RULE: &str = "cases: bases {with/without authority} x {empty, '/', absolute, rootless path; dot, empty and colon segments; with/without query} x references of each of the five 5.2.2 branches (own scheme / own authority / empty path / absolute path / relative path) x paths ending in '.'/'..', leading empty segments, 0-8 '..', ordinary segments, queries and fragments - a structured product first, then random (base, reference) pairs; resolved(), resolve() in place and into_resolved() in both families are compared with a literal implementation of 5.2.2/5.2.3/5.2.4 (+ Errata 4547 for paths not starting with '/') and 5.3, which is itself checked against the RFC's 42 examples at start-up. Non-trivial = every resolved pair; distinct by (base, reference)";
+pub const RULE: &str = "cases: bases {with/without authority} x {empty, '/', absolute, rootless path; dot, empty and colon segments; with/without query} x references of each of the five 5.2.2 branches (own scheme / own authority / empty path / absolute path / relative path) x paths ending in '.'/'..', leading empty segments, 0-8 '..', ordinary segments, queries and fragments - a structured product first, then random (base, reference) pairs; resolved(), resolve() in place and into_resolved() in both families are compared with a literal implementation of 5.2.2/5.2.3/5.2.4 (+ Errata 4547 for paths not starting with '/') and 5.3, which is itself checked against the RFC's 42 examples at start-up. The structured product includes bases with empty ports, dot-ending paths and 15-33 segments, references with a root path plus query/fragment, '?#', schemes in other letter case. A deviation in the region of the recorded finding is accepted only when the output is exactly what the executable model of that deviation predicts. Non-trivial = every resolved pair; distinct by (base, reference)";
 
 pub const MANDATORY: &[&str] = &[
     "branch:scheme", "branch:authority", "branch:empty-path", "branch:absolute-path", "branch:relative-path", "branch:scheme:last-dot-yes",
